@@ -96,6 +96,8 @@ func c10QuirkRuntime() []byte {
 	sel("0x18160ddd", "sup")
 	sel("0x0a11ce00", "arm1")
 	sel("0x0a11ce02", "arm2")
+	sel("0x0a11ce03", "arm3")
+	sel("0x0a11ce04", "disarm")
 	sel("0xa9059cbb", "transfer")
 	a.Label("true")
 	a.Push(1).Push(0).Op(vm.MSTORE).Push(32).Push(0).Op(vm.RETURN)
@@ -105,8 +107,16 @@ func c10QuirkRuntime() []byte {
 	a.Label("arm2")
 	a.Push(2).PushBytes(c10ArmSlot.Bytes()).Op(vm.SSTORE)
 	a.Jump("true")
+	a.Label("arm3")
+	a.Push(3).PushBytes(c10ArmSlot.Bytes()).Op(vm.SSTORE)
+	a.Jump("true")
+	a.Label("disarm")
+	a.Push(0).PushBytes(c10ArmSlot.Bytes()).Op(vm.SSTORE)
+	a.Jump("true")
 	a.Label("transfer")
-	// mode 0: debit n, credit n; mode 1: debit 2n, credit 2n; mode 2: debit 2n, credit n
+	// mode 0: debit n, credit n; mode 1: debit 2n, credit 2n; mode 2: debit 2n, credit n; mode 3: paused (reverts)
+	a.Push(3).PushBytes(c10ArmSlot.Bytes()).Op(vm.SLOAD, vm.EQ)
+	a.Jumpi("fail")
 	a.PushBytes(c10ArmSlot.Bytes()).Op(vm.SLOAD)
 	a.Op(vm.DUP1, vm.ISZERO, vm.ISZERO).Push(1).Op(vm.ADD)
 	a.Push(36).Op(vm.CALLDATALOAD, vm.MUL) // debit, mode
